@@ -38,6 +38,8 @@ fn reader_log(s: &[u8], src: Src, rb: RBuf) -> Result<Log, String> {
     Err("reader did not reach None within |s|+4 calls".into())
 }
 
+/// C15 speaks about the sequence of payloads and decode errors; where each result surfaces is C01's / C10's
+/// business, so positions are not compared here (with_pos = false everywhere)
 fn same(a: &Log, b: &Log, with_pos: bool) -> bool {
     if a.len() != b.len() {
         return false;
@@ -62,11 +64,11 @@ impl PropCase for Agree {
         let arr = menu_at_least(s.len()).map(BufKind::Arr);
         if let Some(a) = arr {
             let l = run_f1(a, s);
-            ensure!(same(&base, &l, true), "F1/arr-vs-vec", base_s.clone(), format!("{} (buffer {})", log_str(&l), a.name()));
+            ensure!(same(&base, &l, false), "F1/arr-vs-vec", base_s.clone(), format!("{} (buffer {})", log_str(&l), a.name()));
         }
         {
             let l = run_f1_from_buf(BufKind::Vec, s);
-            ensure!(same(&base, &l, true), "F1/from_buf-vs-new", base_s.clone(), log_str(&l));
+            ensure!(same(&base, &l, false), "F1/from_buf-vs-new", base_s.clone(), log_str(&l));
         }
         // decode_streaming over a non-fused source: the input ends at the source's FIRST None (even mid-frame)
         if !s.is_empty() {
@@ -136,7 +138,7 @@ impl PropCase for Agree {
         for &b in &bufs {
             let f3 = run_f3(b, s, 2);
             ensure!(
-                same(&base, &f3.log, true) && f3.late.is_empty(),
+                same(&base, &f3.log, false) && f3.late.is_empty(),
                 &format!("F3/{}-vs-F1", b.kind_class()),
                 base_s.clone(),
                 format!("{} late={:?}", log_str(&f3.log), f3.late)
@@ -156,7 +158,7 @@ impl PropCase for Agree {
                 match reader_log(s, *src, *rb) {
                     Ok(l) => {
                         ensure!(
-                            same(&base, &l, true),
+                            same(&base, &l, false),
                             &format!("R/{}-vs-F1", src.name()),
                             base_s.clone(),
                             format!("{} (buffer {})", log_str(&l), rb.name())
